@@ -302,6 +302,12 @@ class ResourceScenario(ScenarioData):
         if available_seconds <= 0:
             return False
 
+        # A number in the scoreboard marks time off (off-hours, a leave, a global holiday), not
+        # a booking: such a slot is never bookable - also not "partly", when a task enters it
+        # behind a dependency bound that lies inside the slot
+        if isinstance(self.scoreboard[sb_idx], int):
+            return False
+
         # If scoreboard shows a booking but there's available time, it's a partial slot
         # that was released - allow booking
         if self.scoreboard[sb_idx] is not None and available_seconds < self.project.attributes.get(
